@@ -91,8 +91,21 @@ pub fn print_types<W: std::fmt::Write>(w: &mut W, ast: &Ast, derive: &str) -> Re
                     writeln!(w, "{},", NonDigitName(SafeName(c.as_str())))?;
                 }
 
-                if v.default.is_some() {
-                    writeln!(w, "default,")?;
+                // A default arm carrying data is a tuple variant like any other
+                // arm (a void default is listed in void_cases above).
+                if let Some(ref d) = v.default {
+                    write!(w, "default(")?;
+
+                    match d.field_value.unwrap_array() {
+                        BasicType::Opaque => write!(w, "T")?,
+                        BasicType::String => write!(w, "String")?,
+                        BasicType::Ident(i) if ast.generics().contains(i.as_ref()) => {
+                            write!(w, "{}<T>", i)?
+                        }
+                        _ => write!(w, "{}", d.field_value)?,
+                    }
+
+                    writeln!(w, "),")?;
                 }
 
                 writeln!(w, "}}")?;
